@@ -27,7 +27,8 @@ CONFIG = dict(
     required_counters=("steps_compared", "observable_edits"),
 )
 
-EDITS = ["extend_failing", "iadd_failing", "set_slice_failing",
+EDITS = ["extend_failing", "iadd_failing", "set_slice_failing", "set_negative", "del_negative", "insert_negative",
+         "set_stepped_slice", "del_stepped_slice", "pop_negative",
          "insert_mid", "insert_front", "insert_before_stop", "set_int", "set_slice", "del_int", "del_slice",
          "append", "extend", "iadd", "pop", "pop_i", "remove", "reverse", "clear_refill",
          "insert_python_first", "insert_python_last", "insert_python_replace", "append_python",
@@ -88,6 +89,24 @@ def apply_edit(f, p, name, rng, pool, original):
     elif name == "set_slice_failing":
         i = rng.randint(0, n)
         p[i:i + 1] = failing(rng.randint(1, 2))
+    elif name == "set_negative":
+        if n:
+            p[-rng.randint(1, n)] = one()
+    elif name == "del_negative":
+        if n:
+            del p[-rng.randint(1, n)]
+    elif name == "insert_negative":
+        p.insert(-rng.randint(1, max(1, n)), one())
+    elif name == "pop_negative":
+        if n:
+            p.pop(-rng.randint(1, n))
+    elif name == "set_stepped_slice":
+        if n >= 2:
+            k = len(range(n)[::2])
+            p[::2] = [one() for _ in range(k)]
+    elif name == "del_stepped_slice":
+        if n >= 2:
+            del p[1::2]
     elif name == "insert_mid":
         p.insert(rng.randint(0, n), one())
     elif name == "insert_front":
